@@ -401,6 +401,9 @@ type ValOpt struct {
 var unicodeEdges = []string{"", " ", "a", "é", "ß", "日本語", "😀", "\U0010FFFF", "\x00", "a\x00b", "\u200b", "\ufeff", "\u0301e",
 	"line\nbreak", "tab\t", `"quoted"`, `back\slash`, "null", "NaN", "-0", strings.Repeat("x", 300)}
 
+// GenUTF8 generates a valid UTF-8 string (edge cases and random runes).
+func GenUTF8(rng *rand.Rand, max int) string { return genUTF8(rng, max) }
+
 func genUTF8(rng *rand.Rand, max int) string {
 	if rng.IntN(3) == 0 {
 		return unicodeEdges[rng.IntN(len(unicodeEdges))]
